@@ -356,6 +356,9 @@ def main():
         print("  reason: %s" % msg[:400])
         print("VIOLATION property=%s replay=%s%s" % (pid, rp, " no-failing-input-found" if nofail else ""))
         sys.exit(1)
+    # nothing to look at after a clean run: the traces of a thorough run take gigabytes (replays live in build/replay)
+    if tier != 'quick' and not os.environ.get('VERIF_KEEP_RUNS'):
+        shutil.rmtree(outdir, ignore_errors=True)
     sys.exit(0)
 
 
